@@ -684,3 +684,47 @@ def lock_accesses(fa: C.FuncAST, mutex_re: str, fields: Sequence[str], via: Opti
 
     walk_block_lv(fa.body, entry_held, {})
     return out
+
+
+# ---------------------------------------------------------------------------------------------
+# K5 polarity agreement of ops-table wiring
+# ---------------------------------------------------------------------------------------------
+POLARITY_PAIRS = [("added", "removed"), ("insert", "remove"), ("subscribe", "unsubscribe"), ("start", "stop"),
+                  ("simulation", "realtime"), ("capture", "apply"), ("peered", "non_peered"), ("root", "nested"),
+                  ("begin", "end"), ("push", "pop"), ("first", "last"), ("active", "passive"), ("input", "output")]
+
+
+def _words(name: str) -> List[str]:
+    return [w for w in re.split(r"[_:<>&\s]+", name.lower()) if w]
+
+
+def slot_wirings(tree: Tree, rel: str) -> List[Tuple[str, str, int, str]]:
+    """`x.slot = &fn;` and `.slot = &fn,` wirings in a file: (slot, fn, line, enclosing function)."""
+    fi = tree.file(rel)
+    toks = fi.toks
+    out = []
+    for i, t in enumerate(toks):
+        if t.kind == "id" and i + 3 < len(toks) and toks[i + 1].text == "=" and toks[i + 2].text == "&" and toks[i + 3].kind == "id" \
+                and i > 0 and toks[i - 1].text in (".", "->"):
+            # collect the (possibly qualified / templated) function name
+            j = i + 3
+            name = toks[j].text
+            while j + 2 < len(toks) and toks[j + 1].text == "::" and toks[j + 2].kind == "id":
+                name += "::" + toks[j + 2].text
+                j += 2
+            fd = enclosing_function(tree, rel, i)
+            out.append((t.text, name, t.line, fd.qual if fd else "<scope>"))
+    return out
+
+
+def polarity_findings(tree: Tree, rel: str) -> Tuple[int, List[Tuple[str, str, int, str, str]]]:
+    """Slots wired to a function of the opposite polarity.  Returns (#wirings inspected, findings)."""
+    ws = slot_wirings(tree, rel)
+    bad = []
+    for slot, fn_, line, encl in ws:
+        sw, fw = _words(slot), _words(fn_.split("::")[-1])
+        for a, b in POLARITY_PAIRS:
+            for x, y in ((a, b), (b, a)):
+                if x in sw and y not in sw and y in fw and x not in fw:
+                    bad.append((slot, fn_, line, encl, f"{x}/{y}"))
+    return len(ws), bad
